@@ -8,10 +8,10 @@
    indices, every index resolves to its value in the final state.  The
    refinement part says the returned indices are EXACTLY the image of the
    abstract first-appearance table under [slot_plain] / [slot_pre]. *)
-From Coq Require Import ZArith List Bool Arith.
+From Coq Require Import String ZArith List Bool Arith.
 From SK Require Import Model.Base Model.Skel Model.Stm Model.SequenceSk
      Model.Store Model.StoreSk Spec.Store Proofs.Store Proofs.StoreSk
-     Gen.Exprs Gen.Params Gen.SkelTree.
+     Gen.Exprs Gen.Params Gen.SkelTree Gen.XStore.
 Import ListNotations.
 Open Scope Z_scope.
 
@@ -48,12 +48,21 @@ Theorem C15_store_add_shape :
   calls_only_list tk_store_add = expected_store_add.
 Proof. vm_compute. reflexivity. Qed.
 
-(* sync: under the lock, first the data loop (one guarded write per item),
-   then the value / tag / sequence-id merges, in that order; unproxy: each
+(* sync, in normal form (reads erased, loop nests flattened, equal call loops
+   in a row merged - so "three loops" and "one loop over the three pairs"
+   are the same): under the lock, first the data loop (one guarded write per
+   item), then the merges through _add_to_store; each of the three shared
+   reverse maps is handed over exactly once; the guard of the copy is
+   `value is not None` (Gen/XStore.v), not truthiness; unproxy: each
    of the four dicts re-assigned under the lock; preallocate: read, read,
    write of the pointer under the lock *)
-Theorem C15_sync_tree : tk_sync = expected_sync.
-Proof. vm_compute. reflexivity. Qed.
+Theorem C15_sync_tree :
+  loop_norm tk_sync = expected_sync_norm /\
+  occ_list (is_rd "value_store"%string) tk_sync = 1%nat /\
+  occ_list (is_rd "tag_store"%string) tk_sync = 1%nat /\
+  occ_list (is_rd "sequence_id_store"%string) tk_sync = 1%nat /\
+  x_sync_data_guard_is_not_none = true.
+Proof. vm_compute. repeat split. Qed.
 
 Theorem C15_unproxy_writes :
   writes_only tk_unproxy_results = expected_unproxy_writes.
@@ -148,7 +157,8 @@ Proof. vm_compute. reflexivity. Qed.
 
 (* sync only READS the worker-local tables (Model.Store.sync leaves the
    local store untouched: add .. sync .. add .. sync histories) *)
-Theorem C15_sync_reads_local_only : tk_sync_local = expected_sync_local.
+Theorem C15_sync_reads_local_only :
+  occ_list is_wr_any tk_sync_local = 0%nat.
 Proof. vm_compute. reflexivity. Qed.
 
 (* ResultStoreParallel.local: a new store (built from self.preallocate and
